@@ -1,8 +1,13 @@
-import AcraModel.Envelope.Detector
+import AcraModel.Envelope.SafeExamples
+import AcraModel.Envelope.SafeBound
+import AcraModel.Envelope.SafeCompatSame
+import AcraModel.Crypto.ShimLaws
 /-!
 # C03 — any modification of a protected value is detected, never mis-decrypted
 
-Property theorems only. Models: `AcraModel/Envelope/{AcraBlock,AcraStruct,Container,Detector}.lean`.
+Property theorems only. Models: `AcraModel/Envelope/{AcraBlock,AcraStruct,Container,Detector}.lean`,
+helper lemmas: `AcraModel/Envelope/Safe*.lean`. The "no panic" / bound theorems also serve C14
+(no input can crash a handler or make it loop or allocate without bound).
 -/
 namespace AcraModel.Props.C03
 open AcraModel AcraModel.Envelope Generated
@@ -26,5 +31,510 @@ theorem fact_layout_tags :
     structTag = List.replicate 8 34 ∧ blockTag = List.replicate 4 34 ∧ containerTag = List.replicate 3 37 ∧
     idBlock = 240 ∧ idStruct = 241 ∧ Layout.blockKeyBackends = [0] ∧ Layout.blockDataBackends = [0] ∧
     Layout.blockKeyEncryptionBackendTypeSecureCell = 0 ∧ Layout.blockDataEncryptionBackendTypeSecureCell = 0 := by decide
+
+/-! ## A. no decoder panics, whatever the bytes (no crypto law needed: holds for every `c`) -/
+
+/-- `ExtractAcraBlockFromData` never panics, whatever the input bytes. -/
+theorem extractBlock_no_panic : ∀ d : Bytes, extractBlock d ≠ .panic := extractBlock_ne_panic
+
+/-- `ValidateAcraStructLength` never panics, whatever the input bytes. -/
+theorem validateStruct_no_panic : ∀ d : Bytes, validateStruct d ≠ .panic := validateStruct_ne_panic
+
+/-- `GetDataLengthFromAcraStruct` slices `data[137:145]` unguarded: it panics exactly on inputs shorter
+than the 145-byte header. Every caller checks the length first (see `validateStruct_no_panic`,
+`matchOld_no_panic`, `processStructs_no_panic`). -/
+theorem getDataLength_no_panic : ∀ d : Bytes, structMin ≤ d.length → getDataLength d ≠ .panic := by
+  intro d h; rw [getDataLength_eq d h]; simp
+
+/-- … and it does panic on every shorter input (the guard in the callers is necessary). -/
+theorem getDataLength_panics_when_short : ∀ d : Bytes, d.length < structMin → getDataLength d = .panic :=
+  getDataLength_short
+
+/-- `ExtractAcraStruct` never panics: declared lengths that are negative as `int`, overflow, or exceed
+the buffer are rejected before slicing. -/
+theorem extractStruct_no_panic : ∀ d : Bytes, extractStruct d ≠ .panic := extractStruct_ne_panic
+
+/-- `DecryptAcrastruct` never panics, for every key, context and input and every crypto back end. -/
+theorem decryptStruct_no_panic : ∀ (c : CryptoOps) (priv ctx d : Bytes), decryptStruct c priv ctx d ≠ .panic :=
+  decryptStruct_ne_panic
+
+/-- `DecryptRotatedAcrastruct` never panics, for every list of private keys. -/
+theorem decryptStructRotated_no_panic :
+    ∀ (c : CryptoOps) (ctx d : Bytes) (keys : List Bytes), decryptStructRotated c ctx d keys ≠ .panic :=
+  decryptStructRotated_ne_panic
+
+/-- `validateSerializedContainer` never panics. -/
+theorem validateContainer_no_panic : ∀ d : Bytes, validateContainer d ≠ .panic := validateContainer_ne_panic
+
+/-- `matchOldContainer` never panics (it reads the AcraStruct length only after validation). -/
+theorem matchOld_no_panic : ∀ d : Bytes, matchOld d ≠ .panic := matchOld_ne_panic
+
+/-- `getEnvelopeIDFromData` never panics. -/
+theorem getEnvelopeID_no_panic : ∀ d : Bytes, getEnvelopeID d ≠ .panic := getEnvelopeID_ne_panic
+
+/-- `getSerializedContainerLength` slices `data[3:11]` unguarded: it panics exactly below 11 bytes … -/
+theorem containerInternalLength_no_panic :
+    ∀ d : Bytes, 11 ≤ d.length → containerInternalLength d ≠ .panic := containerInternalLength_ne_panic
+
+theorem containerInternalLength_panics_when_short :
+    ∀ d : Bytes, d.length < 11 → containerInternalLength d = .panic := containerInternalLength_short
+
+/-- … but `DeserializeEncryptedData` only calls it after `validateSerializedContainer` accepted the
+data (more than 12 bytes), so deserialisation never panics. -/
+theorem deserialize_no_panic : ∀ d : Bytes, deserialize d ≠ .panic := deserialize_ne_panic
+
+/-- `ExtractSerializedContainer` never panics. -/
+theorem extractContainer_no_panic : ∀ d : Bytes, extractContainer d ≠ .panic := extractContainer_ne_panic
+
+/-- `AcraBlock.Decrypt` calls through a nil backend when the backend byte is unknown (this mirrors
+Go), but never on a block that `ExtractAcraBlockFromData` accepted: that function checks both
+backend bytes against the registered tables. -/
+theorem decryptBlock_extracted_no_panic (c : CryptoOps) (keys : List Bytes) (ctx d : Bytes) (n : Nat) (b : Bytes) :
+    extractBlock d = .ok (n, b) → decryptBlock c keys ctx b ≠ .panic :=
+  decryptBlock_extracted_ne_panic c keys ctx d n b
+
+/-- The two `ContainerHandler.Decrypt` implementations never panic (the AcraBlock one decrypts only
+what `ExtractAcraBlockFromData` returned). -/
+theorem decryptKind_no_panic : ∀ (c : CryptoOps) (kv : KeyView) (k : Kind) (i : Bytes), decryptKind c kv k i ≠ .panic :=
+  decryptKind_ne_panic
+
+/-- `RegistryHandler.DecryptWithHandler` never panics. -/
+theorem decryptWithHandler_no_panic :
+    ∀ (c : CryptoOps) (kv : KeyView) (k : Kind) (d : Bytes), decryptWithHandler c kv k d ≠ .panic :=
+  decryptWithHandler_ne_panic
+
+/-- **Reveal never brings the handler down**: `RegistryHandler.Process` returns a value or an error
+for every byte string, every key-store answer and every crypto back end. -/
+theorem process_no_panic : ∀ (c : CryptoOps) (kv : KeyView) (d : Bytes), process c kv d ≠ .panic := process_ne_panic
+
+theorem reveal_no_panic : ∀ (c : CryptoOps) (kv : KeyView) (d : Bytes), reveal c kv d ≠ .panic := process_ne_panic
+
+/-- **Protect never brings the handler down** either, whatever bytes it is given (including bytes that
+look like an envelope already). -/
+theorem protect_no_panic :
+    ∀ (c : CryptoOps) (kv : KeyView) (k : Kind) (d rnd : Bytes), protect c kv k d rnd ≠ .panic := protect_ne_panic
+
+/-! ## B. the column scans stay inside the buffer, terminate, never panic
+
+`scan`, `processStructs`, `processBlocks` are defined by well-founded recursion on the length of the
+remaining buffer: their very definition is the termination proof (every iteration consumes at least
+one byte). What remains is that the "slice out of range" branches are unreachable.
+
+Model artefact, stated honestly: `Bytes` is a mathematical list, so it can be longer than any Go
+slice. For a buffer of `2^63` bytes or more a declared container length `≥ 2^63` passes the (unsigned)
+range check of `ExtractSerializedContainer` and becomes negative as `int`
+(see `extractContainer_bounds_needs_int_range` at the end). Go slices are shorter than `2^63` bytes,
+so the hypothesis `d.length < 2^63` below holds for every input that can exist. -/
+
+/-- **The fix in `ExtractSerializedContainer`**: on success the caller is told to advance by at least
+one byte and by no more than the data holds. -/
+theorem extractContainer_bounds (d : Bytes) (n : Int) (cont : Bytes) (hd : d.length < 2^63) :
+    extractContainer d = .ok (n, cont) → 0 < n ∧ n ≤ d.length := extractContainer_bounds' hd
+
+/-- An extracted AcraBlock is a prefix of the data, at least the 18-byte header long. -/
+theorem extractBlock_bounds (d : Bytes) (n : Nat) (b : Bytes) :
+    extractBlock d = .ok (n, b) → 18 ≤ n ∧ n ≤ d.length ∧ b = d.take n := extractBlock_bounds'
+
+/-- An extracted AcraStruct is a prefix of the data, at least the 145-byte header long (and it passes
+`ValidateAcraStructLength`). -/
+theorem extractStruct_bounds (d : Bytes) (n : Nat) (s : Bytes) :
+    extractStruct d = .ok (n, s) → 145 ≤ n ∧ n ≤ d.length ∧ s = d.take n ∧ validateStruct s = .ok () :=
+  extractStruct_bounds'
+
+/-- **`OnColumn`'s loop never panics, for ALL callback lists**: callbacks are total functions, the
+extractor never panics, and the skip length is in range, so `inBuffer[inIndex:]` is always valid. -/
+theorem scan_no_panic : ∀ (cbs : List Callback) (rest : Bytes), rest.length < 2^63 → scan cbs rest ≠ .panic :=
+  scan_ne_panic
+
+/-- `EnvelopeDetector.OnColumn` never panics. -/
+theorem onColumn_no_panic : ∀ (cbs : List Callback) (d : Bytes), d.length < 2^63 → onColumn cbs d ≠ .panic :=
+  onColumn_ne_panic
+
+/-- `ProcessAcraStructs` never panics when the per-struct handler does not (the unguarded
+`GetDataLengthFromAcraStruct` is only reached with more than 145 bytes left; a declared length that is
+non-positive or exceeds the buffer is skipped, not sliced). No length hypothesis needed. -/
+theorem processStructs_no_panic (proc : Bytes → Out Bytes) (hp : ∀ x, proc x ≠ .panic) :
+    ∀ rest, processStructs proc rest ≠ .panic := processStructs_ne_panic proc hp
+
+/-- `ProcessAcraBlocks` never panics when the per-block handler does not. -/
+theorem processBlocks_no_panic (proc : Bytes → Out Bytes) (hp : ∀ x, proc x ≠ .panic) :
+    ∀ rest, processBlocks proc rest ≠ .panic := processBlocks_ne_panic proc hp
+
+/-- `OldContainerDetectorWrapper.OnAcraStruct` / `OnAcraBlock` never panic. -/
+theorem onBare_no_panic : ∀ (cbs : List Callback) (id : UInt8) (bare : Bytes), onBare cbs id bare ≠ .panic :=
+  onBare_ne_panic
+
+/-- **The transparent column processor never panics**: `OldContainerDetectorWrapper.OnColumn`
+(container scan, then bare AcraStructs, then bare AcraBlocks) for every callback list and every
+column value. -/
+theorem onColumnCompat_no_panic :
+    ∀ (cbs : List Callback) (d : Bytes), d.length < 2^63 → onColumnCompat cbs d ≠ .panic := onColumnCompat_ne_panic
+
+/-- With the decrypt callback (which swallows every error) the scan never reports a fatal error –
+a damaged value cannot turn into a failed query. True for any callbacks that never answer `fatal`. -/
+theorem scan_never_fatal (cbs : List Callback) (hc : ∀ cb ∈ cbs, ∀ x, cb x ≠ .fatal) :
+    ∀ rest, scan cbs rest ≠ .fatal := scan_ne_fatal cbs hc
+
+theorem scan_decrypt_never_fatal (c : CryptoOps) (kv : KeyView) (rest : Bytes) :
+    scan [decryptCallback c kv] rest ≠ .fatal :=
+  scan_ne_fatal _ (by intro cb hm x; rw [List.mem_singleton.1 hm]; exact decryptCallback_ne_fatal c kv x) rest
+
+theorem onColumn_decrypt_never_fatal (c : CryptoOps) (kv : KeyView) (d : Bytes) :
+    onColumn [decryptCallback c kv] d ≠ .fatal :=
+  onColumn_ne_fatal _ (by intro cb hm x; rw [List.mem_singleton.1 hm]; exact decryptCallback_ne_fatal c kv x) d
+
+/-- … and the same for the whole compatibility wrapper: neither the container scan nor the legacy
+struct/block scans can fail with the decrypt callback. -/
+theorem onColumnCompat_decrypt_never_fatal (c : CryptoOps) (kv : KeyView) (d : Bytes) :
+    onColumnCompat [decryptCallback c kv] d ≠ .fatal :=
+  onColumnCompat_ne_fatal _ (by intro cb hm x; rw [List.mem_singleton.1 hm]; exact decryptCallback_ne_fatal c kv x) d
+
+/-! ## C. bounded output (no unbounded allocation) -/
+
+/-- The internal envelope `DeserializeEncryptedData` returns is never longer than its input. -/
+theorem deserialize_output_bound (d i : Bytes) (id : UInt8) : deserialize d = .ok (i, id) → i.length ≤ d.length :=
+  deserialize_length
+
+/-- **Law-free structural bound on `OnColumn`'s output**: if no callback ever returns more than `B`
+bytes, the output has at most `|input| · max 1 B` bytes (each step consumes ≥ 1 input byte and emits
+either that byte or one replacement). -/
+theorem scan_output_bound (cbs : List Callback) (B : Nat)
+    (hc : ∀ cb ∈ cbs, ∀ x b, cb x = .replaced b → b.length ≤ B) (rest out : Bytes) (hit : Bool) :
+    scan cbs rest = .ok out hit → out.length ≤ rest.length * max 1 B := scan_output_le cbs B hc rest out hit
+
+/-- **Reveal never grows a value** (laws of the real back end's algorithm: `SealLaws` + `SealLen`, both
+proved for the Shim; no commitment assumed): the plaintext is at least 44 bytes shorter than the input. -/
+theorem reveal_output_bound (c : CryptoOps) (hs : SealLaws c) (hl : SealLen c) (kv : KeyView) (d m : Bytes) :
+    reveal c kv d = .ok m → m.length + 44 ≤ d.length := process_length hs hl
+
+/-- **`OnColumn` with the decrypt callback never grows a value** (same laws): each replacement is
+shorter than the declared length of the container it replaces, so the output buffer – allocated
+with capacity `len(inBuffer)` in the Go code – never has to grow. -/
+theorem scan_decrypt_output_bound (c : CryptoOps) (hs : SealLaws c) (hl : SealLen c) (kv : KeyView)
+    (rest out : Bytes) (hit : Bool) :
+    scan [decryptCallback c kv] rest = .ok out hit → out.length ≤ rest.length := scan_decrypt_le hs hl kv rest out hit
+
+theorem onColumn_decrypt_output_bound (c : CryptoOps) (hs : SealLaws c) (hl : SealLen c) (kv : KeyView)
+    (d out : Bytes) (hit : Bool) :
+    onColumn [decryptCallback c kv] d = .ok out hit → out.length ≤ d.length := by
+  unfold onColumn
+  split
+  · intro h; cases h; exact Nat.le_refl _
+  · exact scan_decrypt_le hs hl kv d out hit
+
+/-! ## D. a damaged value is handed back unchanged -/
+
+/-- If at no position the callbacks produce a replacement, the scan output is the input. -/
+theorem scan_unchanged (cbs : List Callback) (rest : Bytes)
+    (hs : ∀ i, i < rest.length → startsWith containerTag (rest.drop i) = true →
+      ∀ n cont, extractContainer (rest.drop i) = .ok (n, cont) → runCallbacks cont cbs = .skip) :
+    ∃ hit, scan cbs rest = .ok rest hit := scan_same cbs rest hs
+
+/-- **Whatever cannot be decrypted is returned byte-identical**: if `Process` fails on every suffix of
+the column value that starts with the container tag, `OnColumn` with the decrypt callback returns
+the value unchanged (and no error). -/
+theorem onColumn_damaged_unchanged (c : CryptoOps) (kv : KeyView) (rest : Bytes)
+    (hs : ∀ i, i < rest.length → startsWith containerTag (rest.drop i) = true →
+      ∀ m, process c kv (rest.drop i) ≠ .ok m) :
+    ∃ hit, onColumn [decryptCallback c kv] rest = .ok rest hit :=
+  onColumn_decrypt_same c kv rest (fun i hi hst m hm => absurd hm (hs i hi hst m))
+
+/-- **The transparent column processor hands a value it cannot decrypt back byte for byte**
+(`OldContainerDetectorWrapper.OnColumn`: container scan, then bare AcraStructs, then bare AcraBlocks).
+If `Process` fails at every position where a container tag starts, and on the serialized form of every
+contiguous part of the value (that is what the legacy scans hand to the callbacks), the client
+receives exactly the stored bytes, and no error. -/
+theorem onColumnCompat_damaged_unchanged (c : CryptoOps) (kv : KeyView) (rest : Bytes)
+    (h1 : ∀ i, i < rest.length → startsWith containerTag (rest.drop i) = true →
+      ∀ m, process c kv (rest.drop i) ≠ .ok m)
+    (h2 : ∀ x id s, x <:+: rest → serialize x id = .ok s → ∀ m, process c kv s ≠ .ok m) :
+    ∃ hit, onColumnCompat [decryptCallback c kv] rest = .ok rest hit :=
+  onColumnCompat_decrypt_same c kv rest h1 h2
+
+/-! ## E. accepted ⇒ genuine (ideal authenticity of the seal: `SealLaws c`)
+
+What the reader accepts is literally what the writer builds for exactly that plaintext under one of
+the reader's keys. Consequences under commitment (`SealCommit c`, never together with a length
+law): keeping the sealed data part fixes the plaintext; splicing parts of two values is rejected. -/
+
+/-- **AcraBlock: accepted ⇒ genuine.** If `AcraBlock.Decrypt` returns `m`, then for one of the reader's
+keys there are a data key and nonces such that the block, from byte 12 on, is exactly what
+`CreateAcraBlock`/`Build` produces: backend ids, the key id of that key, the 2-byte length of the
+sealed data key, the data key sealed under the reader's key, and `m` sealed under the data key
+(same context). The only bytes `Decrypt` never looks at – hence free – are the first twelve: tag and
+rest-length (checked by `ExtractAcraBlockFromData`, see `reveal_genuine`). -/
+theorem decryptBlock_genuine (c : CryptoOps) (hs : SealLaws c) (keys : List Bytes) (ctx b m : Bytes)
+    (h : decryptBlock c keys ctx b = .ok m) :
+    ∃ key ∈ keys, ∃ dek n1 n2 encKey encData,
+      n1.length = nonceLen ∧ n2.length = nonceLen ∧
+      c.enc key ctx dek n2 = some encKey ∧ c.enc dek ctx m n1 = some encData ∧
+      encKey = (b.take (18 + leVal ((b.take 18).drop 16))).drop 18 ∧
+      encData = b.drop (18 + leVal ((b.take 18).drop 16)) ∧
+      b.drop 12 = (buildBlock (keyId c key ctx) encKey encData).drop 12 := by
+  obtain ⟨hl, h12, h15, key, hm, dek, hid, hk, hd⟩ := decryptBlock_ok_parts h
+  obtain ⟨n2, hn2, e2⟩ := hs.enc_of_dec _ _ _ _ hk
+  obtain ⟨n1, hn1, e1⟩ := hs.enc_of_dec _ _ _ _ hd
+  refine ⟨key, hm, dek, n1, n2, blockEncKey b, blockEncData b, hn1, hn2, e2, e1, rfl, rfl, ?_⟩
+  rw [hid]
+  exact block_layout_from12 b hl h12 h15
+
+/-- **AcraStruct: accepted ⇒ genuine.** If `DecryptAcrastruct` returns `m`, the input is
+`tag | pub(45) | wrapped(84) | len(8) | body` with `len = |body|`, the wrapped key unwraps under the
+reader's private key to a symmetric key, and `body` is `m` sealed under that key and the context –
+the shape `CreateAcrastruct` produces. -/
+theorem decryptStruct_genuine (c : CryptoOps) (hs : SealLaws c) (priv ctx d m : Bytes)
+    (h : decryptStruct c priv ctx d = .ok m) :
+    ∃ pub wrapped body symKey n2, pub.length = 45 ∧ wrapped.length = 84 ∧ n2.length = nonceLen ∧
+      d = structTag ++ pub ++ wrapped ++ leBytes 8 body.length ++ body ∧
+      c.unwrap priv pub wrapped = some symKey ∧ symKey ≠ [] ∧ c.enc symKey ctx m n2 = some body := by
+  obtain ⟨hv, symKey, hne, hu, hd⟩ := decryptStruct_ok_parts h
+  obtain ⟨n2, hn2, e2⟩ := hs.enc_of_dec _ _ _ _ hd
+  have hl := (validateStruct_ok hv).1
+  refine ⟨(d.drop 8).take 45, (d.drop 53).take 84, d.drop 145, symKey, n2, ?_, ?_, hn2,
+    validateStruct_layout hv, hu, hne, e2⟩
+  · rw [List.length_take, List.length_drop]; omega
+  · rw [List.length_take, List.length_drop]; omega
+
+/-- … and when the ephemeral public key in the AcraStruct belongs to a valid key pair (as it does when
+`CreateAcrastruct` made it) and the reader's key is valid, the wrapped key is literally
+`wrap ePriv (pubOf priv) symKey` (ideal authenticity of Secure Message, `MsgLaws c`). -/
+theorem decryptStruct_genuine_sender (c : CryptoOps) (hs : SealLaws c) (hm : MsgLaws c) (priv ePriv ctx rest m : Bytes)
+    (hp : c.validPriv priv = true) (he : c.validPriv ePriv = true)
+    (h : decryptStruct c priv ctx (structTag ++ c.pubOf ePriv ++ rest) = .ok m) (hlen : (c.pubOf ePriv).length = 45) :
+    ∃ wrapped body symKey n1 n2, n1.length = nonceLen ∧ n2.length = nonceLen ∧
+      rest = wrapped ++ leBytes 8 body.length ++ body ∧
+      c.wrap ePriv (c.pubOf priv) symKey n1 = some wrapped ∧ c.enc symKey ctx m n2 = some body := by
+  obtain ⟨pub, wrapped, body, symKey, n2, hpl, hwl, hn2, hd, hu, _, e2⟩ := decryptStruct_genuine c hs _ _ _ _ h
+  simp only [List.append_assoc] at hd
+  have h1 := List.append_cancel_left hd
+  have h2 := List.append_inj h1 (by rw [hlen, hpl])
+  obtain ⟨h3, h4⟩ := h2
+  subst h3
+  obtain ⟨n1, hn1, e1⟩ := hm.wrap_of_unwrap ePriv priv wrapped symKey he hp hu
+  exact ⟨wrapped, body, symKey, n1, n2, hn1, hn2, by rw [h4]; simp, e1, e2⟩
+
+/-- **No mis-decryption (AcraBlock).** Whoever keeps the sealed data part of a value cannot make the
+reader return anything but the original plaintext, whatever else is modified, truncated, extended
+or spliced (tag, lengths, backend ids, key id, key part): if the bytes after the key part are a
+ciphertext of `m0` and the block decrypts at all, it decrypts to `m0` – and only in the original
+context. -/
+theorem block_no_misdecrypt (c : CryptoOps) (hs : SealLaws c) (hc : SealCommit c) (keys : List Bytes)
+    (ctx b m dek0 ctx0 m0 n0 ct0 : Bytes) (h : decryptBlock c keys ctx b = .ok m)
+    (hdata : b.drop (18 + leVal ((b.take 18).drop 16)) = ct0) (h0 : c.enc dek0 ctx0 m0 n0 = some ct0) :
+    m = m0 ∧ ctx = ctx0 := by
+  obtain ⟨key, _, dek, n1, n2, encKey, encData, _, _, _, e1, _, hed, _⟩ := decryptBlock_genuine c hs keys ctx b m h
+  rw [hed, hdata] at e1
+  obtain ⟨_, h2, h3⟩ := hc.enc_inj _ _ _ _ _ _ _ _ _ e1 h0
+  exact ⟨h3, h2⟩
+
+/-- **Splicing is rejected (AcraBlock).** The key part of one value (data key `dek1`) combined with the
+data part of another value (sealed under `dek2 ≠ dek1`) is never accepted, under any key list. -/
+theorem block_splice_rejected (c : CryptoOps) (hs : SealLaws c) (hc : SealCommit c) (keys : List Bytes)
+    (ctx b key1 dek1 nk encKey1 dek2 ctx2 m2 nd ct2 : Bytes)
+    (hk : c.enc key1 ctx dek1 nk = some encKey1) (hd : c.enc dek2 ctx2 m2 nd = some ct2) (hne : dek1 ≠ dek2)
+    (hkey : (b.take (18 + leVal ((b.take 18).drop 16))).drop 18 = encKey1)
+    (hdata : b.drop (18 + leVal ((b.take 18).drop 16)) = ct2) :
+    ∀ m, decryptBlock c keys ctx b ≠ .ok m := by
+  intro m h
+  obtain ⟨key, _, dek, n1, n2, encKey, encData, _, _, e2, e1, hek, hed, _⟩ := decryptBlock_genuine c hs keys ctx b m h
+  rw [hek, hkey] at e2
+  rw [hed, hdata] at e1
+  obtain ⟨_, _, h3⟩ := hc.enc_inj _ _ _ _ _ _ _ _ _ e2 hk
+  obtain ⟨h4, _, _⟩ := hc.enc_inj _ _ _ _ _ _ _ _ _ e1 hd
+  exact hne (h3.symm.trans h4)
+
+/-- **No mis-decryption (AcraStruct).** If the sealed body of an AcraStruct (the bytes after the
+145-byte header) is a ciphertext of `m0`, a successful decryption yields `m0`, in the original context. -/
+theorem struct_no_misdecrypt (c : CryptoOps) (hs : SealLaws c) (hc : SealCommit c)
+    (priv ctx d m k0 ctx0 m0 n0 ct0 : Bytes) (h : decryptStruct c priv ctx d = .ok m)
+    (hdata : d.drop 145 = ct0) (h0 : c.enc k0 ctx0 m0 n0 = some ct0) : m = m0 ∧ ctx = ctx0 := by
+  obtain ⟨_, symKey, _, _, hd⟩ := decryptStruct_ok_parts h
+  obtain ⟨n2, _, e2⟩ := hs.enc_of_dec _ _ _ _ hd
+  rw [hdata] at e2
+  obtain ⟨_, h2, h3⟩ := hc.enc_inj _ _ _ _ _ _ _ _ _ e2 h0
+  exact ⟨h3, h2⟩
+
+/-- **Reveal: accepted ⇒ genuine.** If `RegistryHandler.Process` returns `m` for `d`, then the internal
+envelope `DeserializeEncryptedData` cuts out of `d` (the declared-length part of a serialized
+container, or `d` itself for a bare envelope) is
+* either *exactly* the AcraBlock `Build` produces for `m` – tag, rest-length and all – under one of
+  the client's symmetric keys (empty context),
+* or an AcraStruct of the shape `CreateAcrastruct` produces for `m`, whose wrapped key unwraps under
+  one of the server's private keys.
+In particular a value altered anywhere inside the internal envelope reveals to the original plaintext
+or fails; bytes of `d` outside the internal envelope are only the 12-byte container header and
+whatever follows the declared length. -/
+theorem reveal_genuine (c : CryptoOps) (hs : SealLaws c) (kv : KeyView) (d m : Bytes) (h : reveal c kv d = .ok m) :
+    ∃ internal id, deserialize d = .ok (internal, id) ∧
+      ((id = idBlock ∧ ∃ ks, kv.syms = some ks ∧ ∃ key ∈ ks, ∃ dek n1 n2 encKey encData,
+          n1.length = nonceLen ∧ n2.length = nonceLen ∧
+          c.enc key [] dek n2 = some encKey ∧ c.enc dek [] m n1 = some encData ∧
+          internal = buildBlock (keyId c key []) encKey encData) ∨
+       (id = idStruct ∧ ∃ ps, kv.privs = some ps ∧ ∃ priv ∈ ps, ∃ pub wrapped body symKey n2,
+          pub.length = 45 ∧ wrapped.length = 84 ∧ n2.length = nonceLen ∧
+          internal = structTag ++ pub ++ wrapped ++ leBytes 8 body.length ++ body ∧
+          c.unwrap priv pub wrapped = some symKey ∧ symKey ≠ [] ∧ c.enc symKey [] m n2 = some body)) := by
+  obtain ⟨k, i, hd, hk⟩ := process_ok h
+  refine ⟨i, k.id, hd, ?_⟩
+  cases k with
+  | block =>
+    left
+    obtain ⟨hh, hr, _, ks, hks, hdec⟩ := decryptKind_block_ok hk
+    obtain ⟨hl, h12, h15, key, hm, dek, hid, hkd, hdd⟩ := decryptBlock_ok_parts hdec
+    obtain ⟨n2, hn2, e2⟩ := hs.enc_of_dec _ _ _ _ hkd
+    obtain ⟨n1, hn1, e1⟩ := hs.enc_of_dec _ _ _ _ hdd
+    refine ⟨rfl, ks, hks, key, hm, dek, n1, n2, blockEncKey i, blockEncData i, hn1, hn2, e2, e1, ?_⟩
+    rw [hid]
+    exact block_layout_full i hl h12 h15 ((blockHeaderOk_iff i).1 hh).1 hr
+  | struct =>
+    right
+    obtain ⟨ps, hps, priv, hpm, hdec⟩ := decryptKind_struct_ok hk
+    exact ⟨rfl, ps, hps, priv, hpm, decryptStruct_genuine c hs priv [] i m hdec⟩
+
+/-- **Reveal never yields different plaintext.** If the data part of the internal AcraBlock (or the body
+of the internal AcraStruct) of `d` is a ciphertext of `m0`, then `reveal` either fails or returns
+exactly `m0` – whatever else in `d` was flipped, truncated, extended, re-typed or spliced in. -/
+theorem reveal_no_misdecrypt (c : CryptoOps) (hs : SealLaws c) (hc : SealCommit c) (kv : KeyView)
+    (d internal : Bytes) (id : UInt8) (k0 ctx0 m0 n0 ct0 : Bytes)
+    (hd : deserialize d = .ok (internal, id)) (h0 : c.enc k0 ctx0 m0 n0 = some ct0)
+    (hdata : (id = idBlock ∧ internal.drop (18 + leVal ((internal.take 18).drop 16)) = ct0) ∨
+             (id = idStruct ∧ internal.drop 145 = ct0)) :
+    reveal c kv d = .err ∨ reveal c kv d = .ok m0 := by
+  cases hr : reveal c kv d with
+  | err => exact .inl rfl
+  | panic => exact absurd hr (process_ne_panic c kv d)
+  | ok m =>
+    right
+    obtain ⟨k, i, hd', hk⟩ := process_ok hr
+    rw [hd] at hd'
+    simp only [Out.ok.injEq, Prod.mk.injEq] at hd'
+    obtain ⟨rfl, hid⟩ := hd'
+    cases k with
+    | block =>
+      rcases hdata with ⟨_, hdat⟩ | ⟨hi, _⟩
+      · obtain ⟨_, _, _, ks, _, hdec⟩ := decryptKind_block_ok hk
+        rw [(block_no_misdecrypt c hs hc ks [] internal m k0 ctx0 m0 n0 ct0 hdec hdat h0).1]
+      · rw [hi] at hid; exact absurd hid (by decide)
+    | struct =>
+      rcases hdata with ⟨hi, _⟩ | ⟨_, hdat⟩
+      · rw [hi] at hid; exact absurd hid (by decide)
+      · obtain ⟨ps, _, priv, _, hdec⟩ := decryptKind_struct_ok hk
+        rw [(struct_no_misdecrypt c hs hc priv [] internal m k0 ctx0 m0 n0 ct0 hdec hdat h0).1]
+
+/-! ## F. non-vacuity
+
+Concrete values live in `Envelope/SafeExamples.lean`: `exBlock` is a genuine AcraBlock of `exMsg = [1,2,3]`
+under `exKey` built with the Box back end (175 bytes), `exContainer` its serialized container
+(187 bytes), `exDamaged` the container with one byte of the key part changed, `exSpliced` the key
+part of one value with the data part of another, `exBadBackend` the block with an unregistered backend
+id, `exStruct` a well-formed AcraStruct header with three data bytes. -/
+
+set_option maxRecDepth 100000
+
+/-- why `d.length < 2^63` is needed in group B (and only there): on a buffer of `2^63` bytes whose
+declared container length is `2^63`, `ExtractSerializedContainer` succeeds with a *negative* `int` … -/
+theorem extractContainer_bounds_needs_int_range :
+    ∃ (d : Bytes) (n : Int) (cont : Bytes), extractContainer d = .ok (n, cont) ∧ n < 0 :=
+  ⟨hugeHdr ++ List.replicate (2^63) 0, _, _, extractContainer_huge _ List.length_replicate, toInt64_huge⟩
+
+/-- … and the loop would slice out of range. No Go slice is that long. -/
+theorem scan_no_panic_needs_int_range : ∃ (cbs : List Callback) (rest : Bytes), scan cbs rest = .panic :=
+  ⟨_, _, scan_huge (List.replicate (2^63) 0) List.length_replicate⟩
+
+/-- the law bundles of group E are satisfiable: Box has seal authenticity + commitment + message laws,
+the Shim (the algorithm the harness links Acra against) has the authenticity and length laws -/
+example : SealLaws boxOps ∧ SealCommit boxOps ∧ MsgLaws boxOps := ⟨Box.sealLaws, Box.sealCommit, Box.msgLaws⟩
+example : SealLaws shimOps ∧ MsgLaws shimOps := ⟨shim_sealLaws, shim_msgLaws⟩
+/-- the bundle of the output bounds in group C (no commitment there) -/
+example : SealLaws shimOps ∧ SealLen shimOps := ⟨shim_sealLaws, shim_sealLen⟩
+
+/-- decoders: both an error and a success occur (block family) -/
+example : extractBlock [] = .err ∧ extractBlock (exBlock ++ [1, 2]) = .ok (175, exBlock) := by decide
+example : decryptBlock boxOps [exKey2, exKey] [] exBlock = .ok exMsg ∧
+    decryptBlock boxOps [exKey2] [] exBlock = .err := by decide
+/-- `decryptBlock` does panic on bytes `extractBlock` rejects (unregistered backend, matching key id):
+the hypothesis of `decryptBlock_extracted_no_panic` is needed and is met by `exBlock` -/
+example : decryptBlock boxOps [exKey] [] exBadBackend = .panic ∧ extractBlock exBadBackend = .err := by decide
+
+/-- struct family -/
+example : validateStruct [] = .err ∧ validateStruct exStruct = .ok () := by decide
+example : getDataLength [] = .panic ∧ getDataLength exStruct = .ok 3 := by decide
+example : extractStruct [] = .err ∧ extractStruct (exStruct ++ [1, 2]) = .ok (148, exStruct) := by decide
+example : decryptStruct boxOps [1] [] exStruct = .err ∧ decryptStruct toyOps [1] [] exStruct = .ok [9, 9, 9] ∧
+    decryptStructRotated toyOps [] exStruct [] = .err ∧ decryptStructRotated toyOps [] exStruct [[1]] = .ok [9, 9, 9] := by
+  decide
+
+/-- container family -/
+example : validateContainer [] = .err ∧ validateContainer exContainer = .ok idBlock := by decide
+example : matchOld [] = .err ∧ matchOld exBlock = .ok (idBlock, 175) ∧ matchOld exStruct = .ok (idStruct, 148) := by decide
+example : getEnvelopeID [] = .err ∧ getEnvelopeID exContainer = .ok (idBlock, false) ∧
+    getEnvelopeID exBlock = .ok (idBlock, true) := by decide
+example : containerInternalLength [] = .panic := by decide
+example : deserialize [] = .err ∧ deserialize (exContainer ++ [1, 2, 3]) = .ok (exBlock, idBlock) := by decide
+example : extractContainer [] = .err ∧
+    extractContainer (exContainer ++ [1, 2, 3]) = .ok (187, exContainer ++ [1, 2, 3]) := by decide
+
+/-- reveal / protect: success on the genuine value (container and bare form), error on the damaged one -/
+example : reveal boxOps exKv exContainer = .ok exMsg ∧ reveal boxOps exKv exBlock = .ok exMsg ∧
+    reveal boxOps exKv exDamaged = .err ∧ reveal boxOps exKv [] = .err := by decide
+example : protect boxOps exKv .block exMsg exRnd = .ok exContainer ∧
+    protect boxOps ⟨none, none, none, none⟩ .block exMsg exRnd = .err := by decide
+
+/-- group E hypotheses are met: the genuine block decrypts (`decryptBlock_genuine`, `reveal_genuine`); its
+data part is the Box ciphertext of `exMsg` (`block_no_misdecrypt`, `reveal_no_misdecrypt`) -/
+example : exBlock.drop (18 + leVal ((exBlock.take 18).drop 16)) = exEncData ∧
+    boxOps.enc (exRnd.take 32) [] exMsg ((exRnd.drop 32).take 12) = some exEncData := by decide
+
+/-- `block_splice_rejected` applies to `exSpliced` (key part of value 1, data part of value 2, data keys
+`5…5 ≠ 6…6`) – and indeed it is rejected -/
+example : boxOps.enc exKey [] (exRnd.take 32) ((exRnd.drop 44).take 12) = some exEncKey ∧
+    boxOps.enc (exRnd2.take 32) [] exMsg2 ((exRnd2.drop 32).take 12) = some exEncData2 ∧
+    exRnd.take 32 ≠ exRnd2.take 32 ∧
+    (exSpliced.take (18 + leVal ((exSpliced.take 18).drop 16))).drop 18 = exEncKey ∧
+    exSpliced.drop (18 + leVal ((exSpliced.take 18).drop 16)) = exEncData2 := by decide
+example : ∀ m, decryptBlock boxOps [exKey2, exKey] [] exSpliced ≠ .ok m :=
+  block_splice_rejected boxOps Box.sealLaws Box.sealCommit _ [] exSpliced exKey (exRnd.take 32)
+    ((exRnd.drop 44).take 12) exEncKey (exRnd2.take 32) [] exMsg2 ((exRnd2.drop 32).take 12) exEncData2
+    (by decide) (by decide) (by decide) (by decide) (by decide)
+
+/-- AcraStruct side of group E: with commitment (`boxOpenOps`: Box seal, permissive unwrap) a concrete
+AcraStruct decrypts and its body is the ciphertext of `exMsg`; with the real back end's laws (Shim) a
+genuine AcraStruct with valid keys, 45-byte public key and 84-byte wrapped key exists
+(hypotheses of `decryptStruct_genuine`, `decryptStruct_genuine_sender`, `struct_no_misdecrypt`) -/
+example : SealLaws boxOpenOps ∧ SealCommit boxOpenOps ∧ decryptStruct boxOpenOps [1] [] exStruct2 = .ok exMsg ∧
+    exStruct2.drop 145 = exBody ∧ boxOpenOps.enc exSymKey [] exMsg (List.replicate 12 5) = some exBody :=
+  ⟨boxOpen_sealLaws, boxOpen_sealCommit, by decide, by decide, by decide⟩
+example : ∃ priv ePriv rest m, shimOps.validPriv priv = true ∧ shimOps.validPriv ePriv = true ∧
+    (shimOps.pubOf ePriv).length = 45 ∧
+    decryptStruct shimOps priv [] (structTag ++ shimOps.pubOf ePriv ++ rest) = .ok m :=
+  struct_witness shimOps shim_sealLaws shim_sealLen shim_msgLaws shim_msgLen shim_keygenLaws
+
+/-- column scan: a buffer that is one genuine container is replaced by the plaintext; the damaged one
+satisfies the hypothesis of `onColumn_damaged_unchanged` (the only position where `%%%` starts is 0,
+and `Process` fails there), so it is returned unchanged -/
+example : scan [decryptCallback boxOps exKv] exContainer = .ok exMsg true :=
+  scan_single _ exContainer 187 exContainer exMsg (by decide) (by decide) (by decide) (by decide)
+example : ∃ hit, onColumn [decryptCallback boxOps exKv] exDamaged = .ok exDamaged hit :=
+  onColumn_damaged_unchanged boxOps exKv exDamaged (by
+    have h : ∀ i, i < exDamaged.length → startsWith containerTag (exDamaged.drop i) = true →
+        process boxOps exKv (exDamaged.drop i) = .err := by decide
+    intro i hi hs m hm
+    rw [h i hi hs] at hm
+    cases hm)
+
+/-- `onColumnCompat_damaged_unchanged`: a truncated value that still carries all three tags (container
+tag, then the AcraStruct/AcraBlock tag) meets both hypotheses – nothing shorter than 18 bytes is ever
+revealed – and comes back unchanged -/
+example : ∃ hit, onColumnCompat [decryptCallback boxOps exKv] [37, 37, 37, 34, 34, 34, 34, 34, 34, 34, 34, 1, 2, 3]
+    = .ok [37, 37, 37, 34, 34, 34, 34, 34, 34, 34, 34, 1, 2, 3] hit :=
+  onColumnCompat_damaged_unchanged boxOps exKv _
+    (by
+      have h : ∀ i, i < 14 → startsWith containerTag (([37, 37, 37, 34, 34, 34, 34, 34, 34, 34, 34, 1, 2, 3] : Bytes).drop i) = true →
+          process boxOps exKv (([37, 37, 37, 34, 34, 34, 34, 34, 34, 34, 34, 1, 2, 3] : Bytes).drop i) = .err := by decide
+      intro i hi hs m hm
+      rw [h i hi hs] at hm
+      cases hm)
+    (fun x id s hx hs => process_serialized_short boxOps exKv x s id
+      (Nat.lt_of_le_of_lt (infix_length_le hx) (by decide)) hs)
 
 end AcraModel.Props.C03
